@@ -358,4 +358,61 @@ theorem fmtTime_snoc (t : TimeF) (h : t.InRange) :
   · simp only [List.append_assoc]
   · simp [decN_length]
 
+/-! ### buy-order ids -/
+
+theorem decStr_length_pos (n : Nat) : 1 ≤ (decStr n).length := by
+  rw [decStr, decN_length]; exact numDigitsAux_pos n n
+
+theorem buyOrderIdPrefix_length (t : AssetType) : (buyOrderIdPrefix t).length = 2 := by cases t <;> rfl
+
+theorem buyOrderIdPrefix_inj (a b : AssetType) (h : buyOrderIdPrefix a = buyOrderIdPrefix b) : a = b := by
+  cases a <;> cases b <;> first | rfl | (exfalso; revert h; decide)
+
+/-- parsing a well-formed id (type prefix, canonical decimal of a positive uint64) gives back both parts -/
+theorem parseBuyOrderId_create (t : AssetType) (n : Nat) (h0 : 0 < n) (h : n < 2 ^ 64) :
+    parseBuyOrderId (buyOrderIdPrefix t ++ decStr n) = some (t, n) := by
+  have hl := decStr_length_pos n
+  have hlen : ¬ (buyOrderIdPrefix t ++ decStr n).length < 3 := by
+    simp [buyOrderIdPrefix_length]; omega
+  have htake : (buyOrderIdPrefix t ++ decStr n).take 2 = buyOrderIdPrefix t := by
+    rw [List.take_left' (buyOrderIdPrefix_length t)]
+  have hdrop : (buyOrderIdPrefix t ++ decStr n).drop 2 = decStr n := by
+    rw [List.drop_left' (buyOrderIdPrefix_length t)]
+  simp only [parseBuyOrderId, hlen, if_false, htake, hdrop, parseU64_decStr n h, h0, if_true]
+  cases t <;> simp [buyOrderIdPrefix]
+
+/-- what `parseBuyOrderId` accepts has the shape prefix ++ digits with that value -/
+theorem parseBuyOrderId_some (id : Bytes) (t : AssetType) (n : Nat) (h : parseBuyOrderId id = some (t, n)) :
+    id = buyOrderIdPrefix t ++ id.drop 2 ∧ parseU64 (id.drop 2) = some n ∧ 0 < n := by
+  unfold parseBuyOrderId at h
+  split at h
+  · exact absurd h (by simp)
+  · rename_i hlen
+    have hl2 : 2 ≤ id.length := by omega
+    have hsplit : id = id.take 2 ++ id.drop 2 := (List.take_append_drop 2 id).symm
+    by_cases h1 : id.take 2 = buyOrderIdPrefix .name
+    · simp only [h1, if_true] at h
+      cases hp : parseU64 (id.drop 2) with
+      | none => simp [hp] at h
+      | some v =>
+        simp only [hp] at h
+        by_cases hv : 0 < v
+        · simp only [hv, if_true, Option.some.injEq, Prod.mk.injEq] at h
+          obtain ⟨rfl, rfl⟩ := h
+          exact ⟨by rw [← h1]; exact hsplit, rfl, hv⟩
+        · simp [hv] at h
+    · by_cases h2 : id.take 2 = buyOrderIdPrefix .alias
+      · have hne : ¬ buyOrderIdPrefix .alias = buyOrderIdPrefix .name := by decide
+        simp only [h2, hne, if_true, if_false] at h
+        cases hp : parseU64 (id.drop 2) with
+        | none => simp [hp] at h
+        | some v =>
+          simp only [hp] at h
+          by_cases hv : 0 < v
+          · simp only [hv, if_true, Option.some.injEq, Prod.mk.injEq] at h
+            obtain ⟨rfl, rfl⟩ := h
+            exact ⟨by rw [← h2]; exact hsplit, rfl, hv⟩
+          · simp [hv] at h
+      · simp [h1, h2] at h
+
 end DymVerif.Keys
